@@ -80,6 +80,37 @@ func loadPkg(dir string) (*pkgConsts, error) {
 	return pc, nil
 }
 
+// unsignedConvBits: the width of the unsigned integer type e is converted to (uint16(0) -> 16),
+// 0 when e is not such a conversion.
+func unsignedConvBits(e ast.Expr) int {
+	for {
+		p, ok := e.(*ast.ParenExpr)
+		if !ok {
+			break
+		}
+		e = p.X
+	}
+	ce, ok := e.(*ast.CallExpr)
+	if !ok || len(ce.Args) != 1 {
+		return 0
+	}
+	id, ok := ce.Fun.(*ast.Ident)
+	if !ok {
+		return 0
+	}
+	switch id.Name {
+	case "uint8", "byte":
+		return 8
+	case "uint16":
+		return 16
+	case "uint32":
+		return 32
+	case "uint64", "uint", "uintptr":
+		return 64
+	}
+	return 0
+}
+
 func (pc *pkgConsts) eval(e ast.Expr, iota int, depth int) (*big.Int, error) {
 	if depth > 50 {
 		return nil, fmt.Errorf("too deep")
@@ -118,6 +149,14 @@ func (pc *pkgConsts) eval(e ast.Expr, iota int, depth int) (*big.Int, error) {
 			return new(big.Int).Neg(v), nil
 		case token.ADD:
 			return v, nil
+		case token.XOR:
+			// bitwise complement: of an unsigned conversion (^uint16(0)) within that width,
+			// otherwise (untyped / signed operand) -x-1
+			if bits := unsignedConvBits(x.X); bits > 0 {
+				mask := new(big.Int).Sub(new(big.Int).Lsh(big.NewInt(1), uint(bits)), big.NewInt(1))
+				return new(big.Int).Xor(new(big.Int).And(v, mask), mask), nil
+			}
+			return new(big.Int).Not(v), nil
 		}
 		return nil, fmt.Errorf("unsupported unary %s", x.Op)
 	case *ast.CallExpr: // conversions such as uint32(1000), int64(x)
